@@ -147,11 +147,7 @@ theorem resolveA_mode : ∀ (y : Ys) (s : St), (resolveA y s).2.mode = s.mode
     · simp only [Bool.false_eq_true, if_false]; rw [resolveA_mode y s, hm]
     · simp [hm]
   | .ofut b _, s => by cases b <;> simp [resolveA]
-  | .gco y, s => by
-    unfold resolveA
-    cases hm : s.mode
-    · simp only [Bool.false_eq_true, if_false]; rw [resolveA_mode y s, hm]
-    · simp [hm]
+  | .gco y, s => by simp only [resolveA]; exact resolveA_mode y s
 theorem gatherA_mode : ∀ (l : YsL) (s : St), (gatherA l s).2.mode = s.mode
   | .nil, s => by simp [gatherA]
   | .cons y l, s => by
@@ -311,12 +307,7 @@ theorem resolveA_noB : ∀ (y : Ys) (s : St), y.noRaiseB = true → (resolveA y 
     · simp only [Bool.false_eq_true, if_false]; exact resolveA_noB y s hn
     · simp [Out.noB, Err.isBase]
   | .ofut b _, _, _ => by cases b <;> simp [resolveA, Out.noB, Err.isBase]
-  | .gco y, s, hn => by
-    simp only [Ys.noRaiseB] at hn
-    unfold resolveA
-    cases hm : s.mode
-    · simp only [Bool.false_eq_true, if_false]; exact resolveA_noB y s hn
-    · simp [Out.noB, Err.isBase]
+  | .gco y, s, hn => by simp only [Ys.noRaiseB] at hn; simp only [resolveA]; exact resolveA_noB y s hn
 theorem gatherA_noB : ∀ (l : YsL) (s : St), l.noRaiseB = true → (gatherA l s).1.noB = true
   | .nil, _, _ => by simp [gatherA, OutL.noB]
   | .cons y l, s, hn => by
@@ -435,7 +426,10 @@ theorem resolveA_eq_ysR : ∀ (y : Ys) (s s' : St),
   | .sub _, _, _, _, _, hr, _, _ => by simp [Ys.plainY] at hr
   | .pval _, _, _, _, _, hr, _, _ => by simp [Ys.plainY] at hr
   | .ofut b _, _, _, _, _, _, _, _ => by cases b <;> simp [resolveA, ysR]
-  | .gco _, _, _, _, _, hr, _, _ => by simp [Ys.plainY] at hr
+  | .gco y, s, s', hm, hm', hr, hs, hx => by
+    simp only [Ys.plainY, Ys.noSync] at hr hs
+    simp only [resolveA, ysR]
+    exact resolveA_eq_ysR y s s' hm hm' hr hs (by simpa [SafeY, Ys.excOnly, Ys.noRaiseB] using hx)
 theorem gatherA_eq_yslR : ∀ (l : YsL) (s s' : St),
     s.mode = true → s'.mode = false → l.plainY = true → l.noSync = true → SafeL l →
     (gatherA l s).1 = (yslR l s').1
@@ -761,8 +755,8 @@ theorem resolveA_good : ∀ (y : Ys) (s : St), s.mode = true →
   | .pval _, s, hm => by
     simp only [resolveA, Ys.labelsA, hm, if_true]; exact ⟨rfl, Ext.refl _ s⟩
   | .ofut b _, s, _ => by cases b <;> (simp only [resolveA, Ys.labelsA]; exact ⟨rfl, Ext.refl _ s⟩)
-  | .gco _, s, hm => by
-    simp only [resolveA, Ys.labelsA, hm, if_true]; exact ⟨rfl, Ext.refl _ s⟩
+  | .gco y, s, hm => by
+    simp only [resolveA, Ys.labelsA]; exact resolveA_good y s hm
 theorem gatherA_good : ∀ (l : YsL) (s : St), s.mode = true →
     (gatherA l s).1.noEsc = true ∧ Ext evOkA (YsL.labelsA l) s (gatherA l s).2
   | .nil, s, _ => by simp only [gatherA, YsL.labelsA]; exact ⟨rfl, Ext.refl _ s⟩
